@@ -28,7 +28,7 @@ A = 'circus.arbiter:Arbiter.'
 
 
 def check(run, ctx):
-    run.each(ctx, [r1, r2, r3, r4, r5, r6])
+    run.each(ctx, [r1, r2, r3, r4, r5, r6, r7])
 
 
 def _yielded_call_nodes(ctx, f, target_keys):
@@ -154,6 +154,38 @@ def r2(run, ctx):
             if val is True:
                 ok = cfg.dominates(pstop, n)
                 run.check('R2', ok, 'True is returned only after Process.stop()', f, n.ast)
+
+
+def r7(run, ctx):
+    run.rule('R7', 'Process.stop, the last step of every termination, signals a live child itself')
+    # kill_process ends with process.stop(): whatever became of the signals sent through the
+    # watcher (vetoed by before_signal, dropped because the pid is no longer tracked), a child
+    # that is still alive here is terminated through its own handle - no hook, no table lookup
+    f = ctx.fn('circus.process:Process.stop')
+    cfg = ctx.cfg(f)
+    direct = [n for n in ctx.live_nodes(f) for c in n.calls()
+              if isinstance(c.func, ast.Attribute) and c.func.attr in ('terminate', 'kill') and
+              '_worker' in norm_text(c.func.value)]
+    if not run.need('R7', direct, 'direct terminate()/kill() of the child in Process.stop', f,
+                    'Process.stop no longer terminates a child that is still alive'):
+        return
+
+    def alive(e):
+        if isinstance(e, ast.Call) and isinstance(e.func, ast.Attribute) and \
+                e.func.attr == 'is_alive':
+            return True
+        return None
+    from sa.idioms import reach_under, path_under
+    r = reach_under(cfg, cfg.entry, alive, avoid=direct, labels_excluded=('exc', 'raise', 'reraise'))
+    run.check('R7', cfg.exit.id not in r, 'a child that is alive when Process.stop runs is '
+              'terminated through its own handle', f, f.node,
+              'Process.stop can finish for a live child without terminating it directly (the '
+              'signal is routed elsewhere or skipped): a worker whose signals the watcher vetoes '
+              'or drops (before_signal false, pid already untracked after a false after_spawn) '
+              'survives its own termination',
+              path=ctx.path_text(f, path_under(cfg, cfg.entry, cfg.exit, alive, avoid=direct,
+                                               labels_excluded=('exc', 'raise', 'reraise')) or []),
+              construct='live child not terminated directly')
 
 
 CORO_TARGETS = ['kill_process', 'kill_processes', '_stop', 'stop', '_stop_watchers',
